@@ -311,6 +311,9 @@ func DiffPoints[T any](before, after T) (Points, error) {
 					sf := t.Field(i)
 					key := sf.Tag.Get("point")
 					if key == "" {
+						key = sf.Tag.Get("edgepoint")
+					}
+					if key == "" {
 						key = ToCamelCase(sf.Name)
 					}
 					p := Point{
@@ -420,6 +423,9 @@ func DiffPoints[T any](before, after T) (Points, error) {
 			for i := 0; i < numField; i++ {
 				sf := t.Field(i)
 				key := sf.Tag.Get("point")
+				if key == "" {
+					key = sf.Tag.Get("edgepoint")
+				}
 				if key == "" {
 					key = ToCamelCase(sf.Name)
 				}
